@@ -54,7 +54,9 @@ def evaluate(case):
         if o2.value > upper:
             fails.append(Failure(f"{PROP}/{alg}/reports-more-bins-than-OPT", dict(detail, reported=o2.value)))
         if o2.value != count:
-            fails.append(Failure(f"{PROP}/{alg}/reported-count-differs-from-returned-bins", dict(detail, reported=o2.value)))
+            labels.append("BinCount-differs-from-returned-bins")     # that is C06's business; here both numbers are held to the bounds
+            if lower is not None and o2.value < guarantee(alg, lower)[0]:
+                fails.append(Failure(f"{PROP}/{alg}/reports-fewer-bins-than-{guarantee(alg, lower)[1]}", dict(detail, reported=o2.value)))
     if count > upper:
         fails.append(Failure(f"{PROP}/{alg}/more-bins-than-OPT", detail))
     score = None
@@ -195,8 +197,7 @@ def legs(tier):
         Leg("corpus", evaluate, "committed instances (docstring examples, published worst cases)", corpus=common.load_corpus(PROP), valid=valid, shards=2),
         Leg("small", evaluate,
             "hypothesis (targeted at (OPT-bins)/OPT): decreasing | twothirds | threequarters on <= 14 positive ints incl. items above the "
-            "bin size and the class thresholds; OPT from the exact bitmask DP; oracle: valid cover, reported BinCount <= OPT and equal to "
-            "the number of returned bins, bins >= (OPT-1)/2 | 2/3(OPT-1) | 3/4 OPT - 4; non-trivial = OPT >= 2 and fewer bins than OPT",
+            "bin size and the class thresholds; OPT from the exact bitmask DP; oracle: valid cover, reported BinCount <= OPT, bins >= (OPT-1)/2 | 2/3(OPT-1) | 3/4 OPT - 4; non-trivial = OPT >= 2 and fewer bins than OPT",
             strategy=small_cases(), n_quick=4000, n_thorough=80000, valid=valid, shrink=shrink, floor=0.03, target=True),
         Leg("planted", evaluate,
             "hypothesis: 2-120 exactly-full bins (mixed cuts; two near-halves + fillers; three near-thirds; many small) plus up to 4 "
